@@ -416,6 +416,8 @@ def mon_c13(script, res):
         if k == 'endacts':
             for r_ in open_reqs.values():
                 r_['late'] = True         # still unanswered when the pass's requests were done
+            for r_ in open_all.values():
+                r_['late'] = True
         if k in ('ans', 'ansall', 'endacts'):
             refused = None
         if refused is not None and k in ('kill', 'fork', 'state'):
@@ -469,6 +471,10 @@ def mon_c13(script, res):
                         return ('a %s request for a group/all answered for processes %r; p%d, whose state did not change '
                                 'since the request, was %seligible' % (r['kind'], sorted(idx), i,
                                                                        '' if i in r['eligible'] else 'not '))
+            if r is not None and r['wait'] == 0 and r.get('late') and not r['low']:
+                return ('a %s request for a group/all with wait=false was not answered at once: the answer came after the main '
+                        'loop had run again, as if wait were true (the single-process call with wait=false answers at once)'
+                        % r['kind'])
             if r is not None and r['wait'] == 1:
                 for (i, status) in e[2]:
                     if not (0 <= i < n) or status != 80:
@@ -782,11 +788,14 @@ def multi_inflight_scripts(U=2, quick=True):
                      for i in range(n)]
             groups = [{'priority': 1, 'procs': list(range(n))}]
             reqs = [['rpc', 1, kind + 'all', 1], ['rpc', 1, kind + 'group', 0, 1], ['rpc', 1, kind + 'group', 0, 1, 1]]
-            for rq in reqs:
+            # the same requests with wait=false, in every spelling (group call, 'group:*', 'group:'): answered at once
+            nowait = [['rpc', 1, kind + 'all', 0], ['rpc', 1, kind + 'group', 0, 0], ['rpc', 1, kind + 'group', 0, 0, 1],
+                      ['rpc', 1, kind + 'group', 0, 0, 2], ['rpc', 1, kind + 'group', 0, 1, 2]]
+            for rq in reqs + nowait:
                 for pat in itertools.product((0, 1), repeat=n):
                     if kind == 'start' and sum(pat) > 1:
                         continue
-                    for word in itertools.product(steps, repeat=3 if quick else 4):
+                    for word in itertools.product(steps, repeat=(3 if quick else 4) if rq in reqs else 2):
                         ops = [{'now': 100, 'acts': []}, {'now': 100 + 2 * U, 'acts': []}]
                         t = 100 + 3 * U
                         op = {'now': t, 'acts': [list(rq)]}
